@@ -30,10 +30,10 @@ func init() {
 			"after an unbalanced Add only the next call (one of each kind, each on a fresh instance) is asserted to panic; longer misuse chains can wrap the packed words back into range (DESIGN.md C08)",
 		},
 		Families: []core.Family{
-			{Name: "closed", N: core.TierN(1500, 20000), Batch: 50, Run: c08Closed},
-			{Name: "multi-sender", N: core.TierN(300, 3000), Batch: 20, Run: c08Multi},
+			{Name: "closed", N: core.TierN(1500, 80000), Batch: 50, Run: c08Closed},
+			{Name: "multi-sender", N: core.TierN(300, 12000), Batch: 20, Run: c08Multi},
 			{Name: "add-reference", N: core.TierN(1, 1), Solo: true, Run: c08AddRef},
-			{Name: "misuse-during-send", N: core.TierN(60, 600), Batch: 10, Run: c08MisuseDuringSend},
+			{Name: "misuse-during-send", N: core.TierN(60, 2400), Batch: 10, Run: c08MisuseDuringSend},
 		},
 	})
 }
